@@ -113,6 +113,14 @@ def replay(beh: list[dict]) -> tuple[list, int, int]:
             findings.append((fp, 'exc', f'expected {ev["exc"] or "success"}, got {exc or "success"}; cost text {after_text[len(HEAD):-len(TAIL)]!r}', step))
             break
         got = read_real(cost)
+        if not exc:
+            # what the model says must be what the printed text says (C06), whatever the record model expects
+            try:
+                got2 = read_real(tree.parse(after_text).raw_directives[0].raw_postings[1].cost)
+                if got2 != got:
+                    findings.append((fp, 'reparse', f'model reads {got} but the printed cost {after_text[len(HEAD):-len(TAIL)]!r} re-parses to {got2}', step))
+            except Exception as e:  # noqa: BLE001
+                findings.append((fp, 'reparse', f'{after_text[len(HEAD):-len(TAIL)]!r} does not parse: {type(e).__name__}', step))
         if exc:
             if after_text != before_text or got != before_rec:
                 findings.append((fp, 'refusal', f'rejected assignment changed the cost: {before_text[len(HEAD):-len(TAIL)]!r} -> '
